@@ -124,7 +124,7 @@ func Digest(r io.Reader, hashFunc crypto.Hash) (*CabinetDigest, error) {
 	}
 	_ = binary.Write(dw, binary.LittleEndian, sb)
 	// save the updated header for writing out later
-	patched := bytes.NewBuffer(make([]byte, 0, outHeader.OffsetFiles))
+	patched := new(bytes.Buffer)
 	_ = binary.Write(patched, binary.LittleEndian, outHeader)
 	_ = binary.Write(patched, binary.LittleEndian, outReserveHeader)
 	_ = binary.Write(patched, binary.LittleEndian, outSigHeader)
@@ -143,11 +143,16 @@ func Digest(r io.Reader, hashFunc crypto.Hash) (*CabinetDigest, error) {
 		return nil, err
 	}
 	if cab.SignatureHeader != nil {
-		// read old signature for verification purposes
-		cab.Signature = make([]byte, cab.SignatureHeader.SignatureSize)
-		if _, err := io.ReadFull(r, cab.Signature); err != nil {
+		// read old signature for verification purposes. the size is only a
+		// claim from the header, so don't allocate it before the data is there.
+		sigSize := int64(cab.SignatureHeader.SignatureSize)
+		sig, err := io.ReadAll(io.LimitReader(r, sigSize))
+		if err != nil {
 			return nil, err
+		} else if int64(len(sig)) != sigSize {
+			return nil, io.ErrUnexpectedEOF
 		}
+		cab.Signature = sig
 	}
 	// ensure there is nothing after the cabinet and signature
 	if _, err := r.Read(make([]byte, 1)); err == nil {
